@@ -224,6 +224,9 @@ def run_check(pid, title, body, argv=None, configs=("real", "complex")):
     noev = "--no-evidence" in argv
     rdir = os.path.join(EVID, "replay") if not noev else os.path.join(os.environ.get("POMVERIF_CACHE", "/var/tmp"), "replay")
     os.makedirs(rdir, exist_ok=True)
+    if os.environ.get("POMVERIF_EXPLAIN"):
+        rdir = os.path.join(rdir, "explain")
+        os.makedirs(rdir, exist_ok=True)
     for old in os.listdir(rdir):
         if old.startswith(pid + "-"):
             os.unlink(os.path.join(rdir, old))
